@@ -58,7 +58,12 @@ func (p *atomicPolicy) Decide(s *sched.Sim, op sched.Op) sched.Decision {
 func runAtomic(r *runner) *engine.Outcome {
 	s, tp := r.s, r.tp
 	s.MaxSteps = 5000
-	backend := tape.Pick(tp, "b.backend", []string{"os", "osmap", "os", "mem"})
+	backend := tape.Pick(tp, "b.backend", []string{"os", "osmap", "os", "mem", "oslimit"})
+	// violations seen through a LimitWriteBucket view carry their own signature namespace
+	ns := "C15|"
+	if backend == "oslimit" {
+		ns = "C15|limit-view|"
+	}
 	hasOld := tp.Draw("b.hasold", 3) != 0
 	nWriters := 1 + tp.Draw("b.nwriters", 2)
 	nReaders := tp.Draw("b.nreaders", 3)
@@ -114,6 +119,12 @@ func runAtomic(r *runner) *engine.Outcome {
 		sb := &simfs.Bucket{S: s, U: osb, Name: "dst", Hooks: r.hooks, YieldReads: true}
 		raw, bucket = osb, sb
 		fileOnDisk = filepath.Join(dir, filepath.FromSlash(target))
+		if backend == "oslimit" {
+			// a byte limit that some of the puts exceed: the wrapper rejects the write that crosses it
+			limit := 1 + tp.Draw("b.limit", 2*len(news[0])+2)
+			bucket = limitedBucket{ReadBucket: sb, WriteBucket: storage.LimitWriteBucket(sb, limit)}
+			s.Event("limit=%d", limit)
+		}
 		if backend == "osmap" {
 			raw = storage.MapReadWriteBucket(osb, storage.MapOnPrefix("view"))
 			bucket = storage.MapReadWriteBucket(sb, storage.MapOnPrefix("view"))
@@ -171,13 +182,13 @@ func runAtomic(r *runner) *engine.Outcome {
 		}
 		if !exists {
 			if hasOld {
-				s.Violate("atomic-visible-in-full", "C15|atomic-crash-state|missing|"+method,
+				s.Violate("atomic-visible-in-full", ns+"atomic-crash-state|missing|"+method,
 					"at step %d (before %s) the object %s does not exist although it held the previous content", s.Steps, op.Key(), target)
 			}
 			return
 		}
 		if classify(content) == "" {
-			s.Violate("atomic-visible-in-full", "C15|atomic-crash-state|partial|"+method,
+			s.Violate("atomic-visible-in-full", ns+"atomic-crash-state|partial|"+method,
 				"at step %d (before %s) %s holds %d bytes that are neither the previous nor a complete new content", s.Steps, op.Key(), target, len(content))
 		}
 	}
@@ -222,14 +233,14 @@ func runAtomic(r *runner) *engine.Outcome {
 				if err != nil {
 					if storage.IsNotExist(err) {
 						if hasOld {
-							s.Violate("atomic-visible-in-full", "C15|atomic-reader|missing|"+method, "reader: %s not found although it held the previous content", target)
+							s.Violate("atomic-visible-in-full", ns+"atomic-reader|missing|"+method, "reader: %s not found although it held the previous content", target)
 						}
 						continue
 					}
 					if sched.ProcOf(ctx).Dead {
 						return
 					}
-					s.Violate("atomic-visible-in-full", "C15|atomic-reader|get-error|"+method, "reader: unexpected error %v", err)
+					s.Violate("atomic-visible-in-full", ns+"atomic-reader|get-error|"+method, "reader: unexpected error %v", err)
 					continue
 				}
 				data, rerr := io.ReadAll(roc)
@@ -238,12 +249,12 @@ func runAtomic(r *runner) *engine.Outcome {
 					if sched.ProcOf(ctx).Dead {
 						return
 					}
-					s.Violate("atomic-visible-in-full", "C15|atomic-reader|read-error|"+method, "reader: read error %v", rerr)
+					s.Violate("atomic-visible-in-full", ns+"atomic-reader|read-error|"+method, "reader: read error %v", rerr)
 					continue
 				}
 				c := classify(string(data))
 				if c == "" {
-					s.Violate("atomic-visible-in-full", "C15|atomic-reader|partial|"+method,
+					s.Violate("atomic-visible-in-full", ns+"atomic-reader|partial|"+method,
 						"reader saw %d bytes that are neither the previous nor a complete new content", len(data))
 				} else {
 					s.Probe("reader-saw-" + strings.TrimRight(c, "0123456789"))
@@ -267,23 +278,26 @@ func runAtomic(r *runner) *engine.Outcome {
 		}
 	}
 	if nWriters == 1 && !crashed && wdone[0] {
+		if limitHit := backend == "oslimit" && werrs[0] != nil && storage.IsWriteLimitReached(werrs[0]); limitHit {
+			s.Probe("write-limit-reached")
+		}
 		if fired > 0 && werrs[0] == nil {
-			s.Violate("write-failure-reported", "C15|unreported|atomic-"+method, "an injected failure fired but the atomic put returned nil")
+			s.Violate("write-failure-reported", ns+"unreported|atomic-"+method, "an injected failure fired but the atomic put returned nil")
 		}
 		if werrs[0] != nil {
 			// failed atomic put: nothing new, nothing left behind
 			post, _ := simfs.DirState(dir)
 			if backend != "mem" {
 				if d := diffState(pre, post); d != "" {
-					s.Violate("failed-atomic-put-leaves-nothing", "C15|atomic-failed-put-residue|"+method,
+					s.Violate("failed-atomic-put-leaves-nothing", ns+"atomic-failed-put-residue|"+method,
 						"atomic put failed (%v) but the directory changed: %s", werrs[0], d)
 				}
 			} else if hasOld != (ferr == nil) || (hasOld && string(final) != string(old)) {
-				s.Violate("failed-atomic-put-leaves-nothing", "C15|atomic-failed-put-residue|"+method, "atomic put failed but the object changed")
+				s.Violate("failed-atomic-put-leaves-nothing", ns+"atomic-failed-put-residue|"+method, "atomic put failed but the object changed")
 			}
 			s.Probe("atomic-put-failed-clean")
 		} else if string(final) != string(news[0]) {
-			s.Violate("success-implies-complete", "C15|success-incomplete|atomic-"+method, "atomic put returned nil but the object does not hold the new content")
+			s.Violate("success-implies-complete", ns+"success-incomplete|atomic-"+method, "atomic put returned nil but the object does not hold the new content")
 		}
 	}
 	if !crashed {
@@ -295,14 +309,14 @@ func runAtomic(r *runner) *engine.Outcome {
 				}
 			}
 			if !ok {
-				s.Violate("success-implies-complete", "C15|success-incomplete|atomic-final|"+method, "a writer succeeded but the final content is not the content of any successful writer")
+				s.Violate("success-implies-complete", ns+"success-incomplete|atomic-final|"+method, "a writer succeeded but the final content is not the content of any successful writer")
 			}
 		}
 		if backend != "mem" {
 			post, _ := simfs.DirState(dir)
 			for _, k := range simfs.SortedKeys(post) {
 				if simfs.IsTemp(k) {
-					s.Violate("failed-atomic-put-leaves-nothing", "C15|atomic-temp-left|"+method, "temp file %s left behind although no process crashed", k)
+					s.Violate("failed-atomic-put-leaves-nothing", ns+"atomic-temp-left|"+method, "temp file %s left behind although no process crashed", k)
 					break
 				}
 			}
@@ -331,4 +345,10 @@ func runAtomic(r *runner) *engine.Outcome {
 		"crash_points": crashPoints, "faults": s.Faults,
 	}
 	return out
+}
+
+// limitedBucket reads through the instrumented bucket and writes through storage.LimitWriteBucket.
+type limitedBucket struct {
+	storage.ReadBucket
+	storage.WriteBucket
 }
